@@ -50,7 +50,12 @@ macro_rules! from_feel_number_into {
     impl TryFrom<&FeelNumber> for $l {
       type Error = DmntkError;
       fn try_from(value: &FeelNumber) -> Result<Self, Self::Error> {
-        return value.to_string().parse::<$l>().map_err(|_| err_number_conversion_failed());
+        // the same number may be written with fraction digits (1.0, 2.00), so convert its integral part
+        let integral = value.trunc();
+        if integral != *value {
+          return Err(err_number_conversion_failed());
+        }
+        integral.to_string().parse::<$l>().map_err(|_| err_number_conversion_failed())
       }
     }
   };
